@@ -315,7 +315,7 @@ TIER = {"quick": dict(maxlen=2, pows="PowQuick"), "thorough": dict(maxlen=2, pow
 
 def run(ctx: Ctx):
     t = TIER[ctx.tier]
-    cfg = cfg_text(constants={"Dims": {2, 3}, "MaxLen": t["maxlen"], "PowExps": "XX", "DoDump": True},
+    cfg = cfg_text(constants={"Dims": {1, 2, 3}, "MaxLen": t["maxlen"], "PowExps": "XX", "DoDump": True},
                    invariants=INVS, constraints=["Dump"]).replace("PowExps = XX", f"PowExps <- {t['pows']}")
     r = ctx.tlc("C06_Group", cfg, dump=True, timeout=3000)
     recs = list(read_dump(r["dump"]))
